@@ -171,6 +171,28 @@ BigRecv == {[ArrR(<<>>) EXCEPT !.extra = <<[n |-> BigName, v |-> V1]>>],
             ObjR(<<El(V1)>>, LenSet(IntV(-1))), ObjR(<<El(V1)>>, LenSet(IntV(-2)))}
 BigCalls == {C("push", a) : a \in {<<>>, <<V9>>, <<V9, V8>>}} \cup {C("pop", <<>>)}
 
+(* primitive receivers (generic calls: O = ToObject(this) once) and primitive thisArg values: what the     *)
+(* callback receives as its object argument (class, primitive value, the same object at every call) and as *)
+(* this (global object for undefined/null, a wrapper for other primitives)                                 *)
+PrimR(v, inh) == [cls |-> "prim", v |-> v, inh |-> inh]
+S_ab == <<97, 98>>
+S_n == <<110>>
+PrimRecv == {PrimR(StrV(S_ab), <<>>), PrimR(StrV(<<97>>), <<>>), PrimR(StrV(<<>>), <<>>), PrimR(StrV(<<97, 98, 97>>), <<>>),
+             PrimR(IntV(5), <<>>), PrimR(IntV(5), <<[n |-> StrV(S_length), v |-> IntV(2)], [n |-> StrV(<<48>>), v |-> StrV(S_n)]>>),
+             PrimR(BoolV(FALSE), <<>>), PrimR(BoolV(TRUE), <<[n |-> StrV(S_length), v |-> IntV(2)], [n |-> StrV(<<49>>), v |-> StrV(S_n)]>>),
+             ArrR(<<El(V1), El(V2)>>), ObjR(<<El(V1), Hole, El(V2)>>, LenSet(IntV(3)))}
+PrimThis == {Undef, Null, IntV(5), StrV(<<116>>), BoolV(FALSE), NumV(NaN)}
+PrimIterCbs == {CbConst(BoolV(TRUE)), CbConst(Undef), CbArg(3), CbEven(2), CbThrowAt(2, BoolV(TRUE))}
+PrimReduceCbs == {CbArg(1), CbArg(2), CbArg(4), CbSum, CbThrowAt(2, V1)}
+PrimCalls ==
+    {C(m, <<cb>>) : m \in IterMethods, cb \in PrimIterCbs}
+    \cup {C(m, <<cb, T>>) : m \in IterMethods, cb \in PrimIterCbs, T \in PrimThis}
+    \cup {C(m, <<cb>>) : m \in {"reduce", "reduceRight"}, cb \in PrimReduceCbs}
+    \cup {C(m, <<cb, IntV(100)>>) : m \in {"reduce", "reduceRight"}, cb \in PrimReduceCbs}
+    \cup {C(m, <<x>>) : m \in IterMethods \cup {"reduce", "reduceRight"}, x \in {Undef, V1}}
+    \cup {C("join", a) : a \in {<<>>, <<StrV(S_dash)>>}} \cup {C("slice", a) : a \in {<<>>, <<V1>>, <<IntV(-1)>>}}
+    \cup {C(m, <<x>>) : m \in {"indexOf", "lastIndexOf"}, x \in {StrV(<<97>>), StrV(S_n), V1}}
+
 (* the constructor and Array.isArray; the receiver is irrelevant *)
 CtorCalls == {C(m, a) : m \in {"Array", "newArray"}, a \in {<<>>, <<V1, V2>>, <<Undef, V1, Null>>}}
              \cup {C(m, <<a>>) : m \in {"Array", "newArray"}, a \in ArgVals \cup {Null, BoolV(TRUE), StrV(<<51>>), IntV(5), NumV(NZero), Ref(4), Ref(6)}}
@@ -189,6 +211,7 @@ R_sortstr == IF "sortstr" \in Fams THEN SetToSeq(SortRecvMixed \cup {r \in Array
 R_conv    == SetToSeq(ConvRecv)
 R_big     == SetToSeq(BigRecv)
 R_ctor    == SetToSeq(CtorRecv)
+R_prim    == SetToSeq(PrimRecv)
 C_slice   == IF "slice" \in Fams THEN SetToSeq(SliceCalls(ArgVals)) ELSE <<>>
 C_splice  == IF "splice" \in Fams THEN SetToSeq(SpliceCalls(ArgVals)) ELSE <<>>
 C_index   == IF "index" \in Fams THEN SetToSeq(IndexCalls(ArgVals)) ELSE <<>>
@@ -200,14 +223,15 @@ C_iter    == IF "iter" \in Fams THEN SetToSeq(IterCalls) ELSE <<>>
 C_conv    == IF "conv" \in Fams THEN SetToSeq(ConvCalls) ELSE <<>>
 C_big     == SetToSeq(BigCalls)
 C_ctor    == SetToSeq(CtorCalls)
+C_prim    == SetToSeq(PrimCalls)
 RecvOf(f) ==
     CASE f = "slice" -> R_plain [] f = "splice" -> R_plain [] f = "index" -> R_all [] f = "range2" -> R_var
       [] f = "simple" -> R_all [] f = "sortnum" -> R_sortnum [] f = "sortstr" -> R_sortstr [] f = "iter" -> R_all
-      [] f = "conv" -> R_conv [] f = "big" -> R_big [] f = "ctor" -> R_ctor
+      [] f = "conv" -> R_conv [] f = "big" -> R_big [] f = "ctor" -> R_ctor [] f = "prim" -> R_prim
 CallsOf(f) ==
     CASE f = "slice" -> C_slice [] f = "splice" -> C_splice [] f = "index" -> C_index [] f = "range2" -> C_range2
       [] f = "simple" -> C_simple [] f = "sortnum" -> C_sortnum [] f = "sortstr" -> C_sortstr [] f = "iter" -> C_iter
-      [] f = "conv" -> C_conv [] f = "big" -> C_big [] f = "ctor" -> C_ctor
+      [] f = "conv" -> C_conv [] f = "big" -> C_big [] f = "ctor" -> C_ctor [] f = "prim" -> C_prim
 Blocks == UNION {{<<f, i>> : i \in 1..Len(RecvOf(f))} : f \in Fams \ {"hist"}}
 
 -----------------------------------------------------------------------------
@@ -280,7 +304,7 @@ Next == IF Fams = {"hist"}
         ELSE /\ cs = None
              /\ UNCHANGED <<blk, heap, hist>>
              /\ LET calls == CallsOf(blk[1]) IN
-                \E j \in Sub(1..Len(calls)) :
+                \E j \in (IF blk[1] \in {"prim", "ctor"} THEN 1..Len(calls) ELSE Sub(1..Len(calls))) :   \* small families are never sampled
                    cs' = [fam |-> blk[1], m |-> calls[j].m, args |-> calls[j].args,
                           objs |-> <<RecvOf(blk[1])[blk[2]]>> \o (IF NeedsAux(calls[j].args) THEN Aux ELSE <<>>)]
 
